@@ -710,6 +710,16 @@ def enum_variants(prog, ty):
     return None
 
 
+def enum_discriminants(prog, ty):
+    """{discriminant value: variant name} when the facts carry explicit discriminants for the enum type, else None."""
+    t = ty.lstrip("&").replace("mut ", "").strip()
+    base = _strip_generic_tail(t)
+    e = prog.enums.get(base) or prog.enums.get(t) or prog.enums.get(t.split("<", 1)[0])
+    if e and all(isinstance(v, dict) and isinstance(v.get("discr"), int) for v in e["variants"]):
+        return {v["discr"]: v["name"] for v in e["variants"]}
+    return None
+
+
 def switch_info(prog, body, b):
     """Decode a `switch` terminator.
 
@@ -744,8 +754,13 @@ def switch_info(prog, body, b):
                 if vs:
                     info["kind"] = "enum"
                     used = set()
+                    by_discr = enum_discriminants(prog, src_ty)
                     for v, tgt in t["targets"]:
-                        if isinstance(v, int) and v < len(vs):
+                        if by_discr is not None:
+                            if v in by_discr:
+                                info["edges"][by_discr[v]] = tgt
+                                used.add(by_discr[v])
+                        elif isinstance(v, int) and v < len(vs):
                             info["edges"][vs[v]] = tgt
                             used.add(vs[v])
                     rest = [v for v in vs if v not in used]
